@@ -57,7 +57,10 @@ def run(unit, em):
                     if y['i'] in derived_nodes or (y['k'] == 'DeclRefExpr' and y.get('d') in handles):
                         return True
                 return False
-            pos = cfg.locate(c)
+            from vfacts import enclosing
+            lam = enclosing(c, ('LambdaExpr',))
+            ccfg = fn.lambda_cfg(lam) if lam is not None else cfg      # a call inside a local lambda is judged on the lambda's own CFG
+            pos = ccfg.locate(c) if ccfg is not None else None
             if pos is None:
                 continue
             # chained form  a->uniqueCluster(k)->uniqueTuplePtrSet(s)->insert(x): the outer call is the insert
@@ -71,7 +74,7 @@ def run(unit, em):
             if chained:
                 em.ok(c, txt, 'result used at once by %s' % method_name(p))
                 continue
-            ok, _ = must_pass_through(cfg, pos, None, is_insert, nonempty=store_loop)
+            ok, _ = must_pass_through(ccfg, pos, None, is_insert, nonempty=store_loop)
             if ok:
                 em.ok(c, txt, 'an insert through the result follows on every path')
             else:
